@@ -46,6 +46,8 @@ def load_c10():
 
 
 OPTIME = {}
+import multiprocessing as _mp
+HANGS = _mp.Value("i", 0)       # hangs confirmed with the long limit so far (shared with the forked workers)
 
 
 def warm_first(ops):
@@ -121,11 +123,17 @@ def evaluate(a):
             t_op = time.time()
             r = run_reader(argv, wd, 10)
             OPTIME[opname.split(" /")[0]] = OPTIME.get(opname.split(" /")[0], 0.0) + time.time() - t_op
+            if r.timeout and HANGS.value >= 8:
+                # eight hangs were already confirmed with the long limit: report further 10 s timeouts without the long re-run
+                found.append(("C05|hang|%s" % opname.split(" -")[0] + "|" + opname, opname, "does not terminate within 10 s (long re-runs stopped after 8 confirmed hangs)", argv))
+                continue
             if r.timeout:
                 # the API pass runs ~1000 histories in one process, each on fresh readers: a slow table load multiplies
                 limit = 600 if opname.startswith("libsquashfs-api") else 60
                 r = run_reader(argv, wd, limit)
                 if r.timeout:
+                    with HANGS.get_lock():
+                        HANGS.value += 1
                     found.append(("C05|hang|%s" % opname.split(" -")[0] + "|" + opname, opname, "does not terminate within %d s" % limit, argv))
                     continue
             if r.crashed:
@@ -194,6 +202,9 @@ def main():
             fl = sorted(fields)
             if bname.startswith("b3") and quick:
                 continue
+            if bname.startswith("b4") and quick:
+                # quick: the inode of the indexed directory, its index entries and listing headers (everything else is covered by b1/b2)
+                fl = [f for f in fl if f.startswith("idx.") and ".ent" not in f]
             if bname.startswith("b3"):
                 # 300 identical entries: keep the fields of the first 3 and last 2 entries of the big directory
                 fl = [f for f in fl if ".ent" not in f or int(f.split(".ent")[1].split(".")[0]) in (0, 1, 2, 255, 256, 298, 299) or not f.startswith("big")]
